@@ -29,6 +29,8 @@ def run(prog, chk):
     identity_transfer(prog, chk)
     specs(prog, chk)
     transform_order(prog, chk)
+    C15.scope_vars_complete(prog, chk)  # every attribute of the <reuse> (also an empty one) becomes a variable of the target
+    via_transform_guard(prog, chk)
     from props import geomalg
     geomalg.check_sites(prog, chk, "C18")
     geomalg.check(prog, chk, "C18", floor=4)
@@ -392,3 +394,28 @@ def transform_order(prog, chk):
             total += 1
             chk.ob(ok, "A16.transform-order", f"{b.short}#{len(seen)}", b.where(line=line), f"{b.short}: the existing transform precedes the placing translate() ({' '.join(seq)})", f"{b.short}: the placing translate() is put BEFORE the element's existing transform ({' '.join(seq)}): a reused group/symbol that carries a transform is placed differently from the other placement path")
     chk.floor("A16.transform-order", total, 2, "site combining an existing transform with the placing translate()")
+
+
+def via_transform_guard(prog, chk):
+    """position_via_transform translates whenever the offset is not (0, 0) - negative offsets included: the guard compares
+    x and y with 0 for inequality"""
+    b = prog.body("svgdx::position::Position::position_via_transform")
+    chk.touch(b)
+    sets = {bb for (bb, t, c) in b.call_sites(R.path_endswith("SvgElement::set_attr"))}
+    if not sets:
+        chk.anchor_missing("A7.via-transform", "position_via_transform: set_attr not found")
+        return
+    from sa import discharge as D
+    ops = []
+    for x in sets:
+        for (a, tgt) in D.dominating_edges(b, x):
+            t = b.term(a)
+            if t["k"] == "switch":
+                o = R.origin(b, t["op"], carriers={})
+                if o[0] == "rv" and o[1].get("k") == "binop":
+                    ops.append(o[1]["op"])
+    # `x != 0. || y != 0.`: both comparisons are Ne (the second one sits on the false edge of the first, so only one of
+    # them dominates); any ordering comparison (Gt / Lt ...) excludes one sign
+    cmps = [st["rv"]["op"] for x, i, st in b.all_stmts() if st.get("rv", {}).get("k") == "binop" and st["rv"].get("aty") == "f32" and st["rv"]["op"] in ("Ne", "Eq", "Gt", "Ge", "Lt", "Le")]
+    ok = bool(cmps) and all(op in ("Ne", "Eq") for op in cmps)
+    chk.ob(ok, "A7.via-transform", "position_via_transform", b.where(), "the translate is applied for every non-zero offset (x != 0 || y != 0)", f"position_via_transform decides with ordering comparisons {cmps}: offsets of one sign (e.g. x=\"-10\") are treated as zero and the instance is left at the origin")
